@@ -150,7 +150,7 @@ func c10Join(r *core.Run, op string, d ref.DT, shapes [][]int, lays []string, ax
 	for _, s := range shapes {
 		ss = append(ss, shapeStr(s))
 	}
-	id := fmt.Sprintf("C10|%s|%s|%s|lay=%s|axis=%d|%s", op, d.Name, strings.Join(ss, "+"), strings.Join(lays, ","), axis, api)
+	id := fmt.Sprintf(propPfx+"C10|%s|%s|%s|lay=%s|axis=%d|%s", op, d.Name, strings.Join(ss, "+"), strings.Join(lays, ","), axis, api)
 	if r.ReplayCase != "" && id != r.ReplayCase {
 		return
 	}
@@ -239,6 +239,9 @@ func c10Join(r *core.Run, op string, d ref.DT, shapes [][]int, lays []string, ax
 			}
 			return nil
 		}
+		if o.Class != "ok" && lenient {
+			return nil
+		}
 		if o.Class != "ok" {
 			tag := ""
 			if o.Class == "panic" && op != "Stack" {
@@ -274,7 +277,7 @@ func c10Join(r *core.Run, op string, d ref.DT, shapes [][]int, lays []string, ax
 }
 
 func c10Repeat(r *core.Run, d ref.DT, shape []int, lay string, axis int, reps []int, api string) {
-	id := fmt.Sprintf("C10|Repeat|%s|%s|%s|axis=%d|reps=%s|%s", d.Name, shapeStr(shape), lay, axis, strings.ReplaceAll(fmt.Sprint(reps), " ", ","), api)
+	id := fmt.Sprintf(propPfx+"C10|Repeat|%s|%s|%s|axis=%d|reps=%s|%s", d.Name, shapeStr(shape), lay, axis, strings.ReplaceAll(fmt.Sprint(reps), " ", ","), api)
 	if r.ReplayCase != "" && id != r.ReplayCase {
 		return
 	}
@@ -332,6 +335,9 @@ func c10Repeat(r *core.Run, d ref.DT, shape []int, lay string, axis int, reps []
 			return nil
 		}
 		if o.Class != "ok" {
+			if lenient {
+				return nil
+			}
 			return core.F("unexpected-refusal", "x", "Repeat(%d, %v) of %v layout %s refused: %s", axis, reps, shape, lay, o)
 		}
 		if res == nil {
